@@ -157,6 +157,14 @@ class C01:
                         programs.kind_of(prog[i_][0]) in ("filter", "refinement", "cost_volume_confidence", "aggregation"):
                     prog[i_ + 1][1] = copy.deepcopy(prog[i_][1])
         bad = None
+        if cls in ("legal", "edit") and prog and rnd.random() < 0.08:
+            # a name that is a documented kind followed by something else than '.suffix' is not a step name
+            i_ = rnd.randrange(len(prog))
+            k_ = programs.kind_of(prog[i_][0])
+            prog[i_][0] = k_ + rnd.choice(["2", "-bis", " 1", ":left", "_", "X", "..", ""]) if rnd.random() < 0.8 else k_.capitalize()
+            if prog[i_][0] == k_ and k_ in [n for j_, (n, _) in enumerate(prog) if j_ != i_]:
+                prog[i_][0] = k_ + "2"
+            cls = "badname"
         if cls == "badparam":
             cands = [(i, bp) for i, (n, _) in enumerate(prog) for bp in BAD_PARAMS if bp[0] == programs.kind_of(n)]
             i, (k, upd) = rnd.choice(cands)
